@@ -45,6 +45,24 @@ theorem stall_at_each_step_bounded (k gap lat timeout : Nat) (deadline : Option 
       ∃ t, e.stop = some t ∧ e.start ≤ t ∧ t ≤ e.start + timeout :=
   runTrace_bounded timeout deadline _ (stallAt_timed steps k gap lat all_steps_timed) now
 
+/-- "The exchange *fails*": a peer silent at a step makes that call fail (`ok = false`) at the end of
+its context, and `Run` returns there — no later transport call is executed, whatever the rest of
+the schedule is.  (Model equation, any step.) -/
+theorem run_stops_at_silent_step (s : Step) (gap : Nat) (rest : List (Step × Beh))
+    (timeout : Nat) (deadline : Option Nat) (now : Nat) :
+    runTrace timeout deadline ((s, ⟨gap, [], none⟩) :: rest) now =
+      [⟨now + gap, ctxEnd s (now + gap) timeout deadline, false⟩] := by
+  simp [runTrace, callRun, ioEnd]
+
+/-- …and for every step of the current source the failure comes no later than `timeout` after the
+step started: the whole remaining run is the single failed call `[start, t]`, `t ≤ start + timeout`. -/
+theorem silent_step_fails_in_time (s : Step) (hs : s ∈ steps) (gap : Nat) (rest : List (Step × Beh))
+    (timeout : Nat) (deadline : Option Nat) (now : Nat) :
+    ∃ t, runTrace timeout deadline ((s, ⟨gap, [], none⟩) :: rest) now = [⟨now + gap, some t, false⟩] ∧
+      now + gap ≤ t ∧ t ≤ now + gap + timeout := by
+  obtain ⟨t, ht, h1, h2⟩ := stall_bounded s hs (now + gap) timeout deadline
+  exact ⟨t, by rw [run_stops_at_silent_step, ht], h1, h2⟩
+
 /-- −404 frames re-arm the timeout once each and no more: a step during which the peer sends `n`
 such frames (and then anything, including nothing) is over within `(n + 1) · timeout` of its start;
 with `n = 0` — the silent peer of the property — within `timeout`. -/
